@@ -610,6 +610,29 @@ def replay_stale_queue():
                 observed=bad or 'conforms')
 
 
+def install_socket_layer(I, log, stage='ok'):
+    """Models of getaddrinfo / socket() for the real _connect: success, or OSError at the given stage."""
+    def getaddrinfo(I_, host, port, *a):
+        log.append('getaddrinfo')
+        if stage == 'getaddrinfo':
+            raise socket_mod.gaierror(-2, 'Name or service not known')
+        return [(socket_mod.AF_INET6, 1, 6, '', ('::1', port)), (socket_mod.AF_INET, 1, 6, '', ('127.0.0.1', port))]
+
+    def mksock(I_, fam, typ, proto):
+        log.append(('socket', fam))
+        if stage == 'socket':
+            raise OSError('too many open files')
+        s = GSock(log, fail_connect=(stage == 'connect'), shutdown_raises=(stage in ('connect', 'makefile')),
+                  established=False)
+        if stage == 'makefile':
+            def mf(*a):
+                raise OSError('makefile failed')
+            s.makefile = mf
+        return s
+    I.override(socket_mod.getaddrinfo, getaddrinfo, kind='assumed')
+    I.override(socket_mod.socket, mksock, kind='assumed')
+
+
 class ConnectModel(Unit):
     """The real _connect against models of the socket layer: success, or OSError at any stage; every resulting object
     state still lets disconnect() run (definite assignment on exceptional exits)."""
@@ -636,25 +659,7 @@ class ConnectModel(Unit):
                 conn.options.compression_threshold = 256
         I.override(raw(Connection, '_write_packet'), lambda I_, c, p: c.socket.send(b'frame of %s' % str(p).encode()), kind='contract')
 
-        def getaddrinfo(I_, host, port, *a):
-            log.append('getaddrinfo')
-            if stage == 'getaddrinfo':
-                raise socket_mod.gaierror(-2, 'Name or service not known')
-            return [(socket_mod.AF_INET6, 1, 6, '', ('::1', port)), (socket_mod.AF_INET, 1, 6, '', ('127.0.0.1', port))]
-
-        def mksock(I_, fam, typ, proto):
-            log.append(('socket', fam))
-            if stage == 'socket':
-                raise OSError('too many open files')
-            s = GSock(log, fail_connect=(stage == 'connect'), shutdown_raises=(stage in ('connect', 'makefile')),
-                      established=False)
-            if stage == 'makefile':
-                def mf(*a):
-                    raise OSError('makefile failed')
-                s.makefile = mf
-            return s
-        I.override(socket_mod.getaddrinfo, getaddrinfo, kind='assumed')
-        I.override(socket_mod.socket, mksock, kind='assumed')
+        install_socket_layer(I, log, stage)
         try:
             I.call(raw(Connection, '_connect'), conn)
             outcome = 'returned'
